@@ -87,7 +87,9 @@ def anchor_universe() -> dict:
         return {"t": "ref", "full": "anchor." + name, "major": 1, "minor": 0}
 
     types.append(td("Inner", [fld("x", prim("uint", 3)), fld("y", {"t": "varr", "elem": prim("int", 5), "cap": 2, "incl": True})], sealed=False))
-    types.append(td("Uni", [fld("a", {"t": "varr", "elem": prim("uint", 8), "cap": 3, "incl": True}), fld("b", {"t": "bool"}), fld("c", prim("float", 16)), fld("d", ref("Inner")), fld("e", {"t": "varr", "elem": ref("Inner"), "cap": 2, "incl": True})], union=True))
+    types.append(td("Uni", [fld("a", {"t": "varr", "elem": prim("uint", 8), "cap": 3, "incl": True}), fld("b", {"t": "bool"}), fld("c", prim("float", 16)), fld("d", ref("Inner")), fld("e", {"t": "varr", "elem": ref("Inner"), "cap": 2, "incl": True}),
+                             # fixed-size storage whose elements own heap memory (the built-in C++14 variant must destroy it), and a plain one
+                             fld("f", {"t": "farr", "elem": ref("Inner"), "n": 2}), fld("g", {"t": "farr", "elem": prim("float", 32), "n": 3})], union=True))
     types.append(td("Outer", [fld("f0", prim("uint", 5)), fld("us", {"t": "varr", "elem": ref("Uni"), "cap": 3, "incl": True}), fld("ins", {"t": "farr", "elem": ref("Inner"), "n": 2}), fld("u", ref("Uni")), fld("bits", {"t": "varr", "elem": {"t": "bool"}, "cap": 11, "incl": True})], sealed=False, extent_bits=8192))
     consts = [
         ("float", 64, "T64A", "1e-320"), ("float", 64, "T64B", "5e-324"), ("float", 64, "T64C", "2.2250738585072014e-308"), ("float", 64, "T64D", "1.7976931348623157e308"),
